@@ -1,6 +1,7 @@
 """C17 — base_hash is a real compare-and-swap; failed and dry calls change nothing.
 
-  translate -> lean build + audit (Props/C17)
+  translate -> lean build + audit (Props/C17: C17_step, C17_history, C17_stale_rejected, C17_dry_unchanged, C17_error_unchanged,
+     C17_two_writers_negative (F27), C17_two_writers_partial (N writers, invariant proof), C17_serial_in_loop, gen_* facts)
   -> known finding F27 (two writers, overlapping [re-read, replace] windows, both succeed): replayed on the real code
   -> sequential histories: every history of length <= L over {content write, changes write, normalize,
      corrections_only call, external modification} x base_hash in {none, current, stale, future} is executed on the
@@ -584,6 +585,14 @@ def run(ctx: vlib.Ctx):
                 "distinct = distinct history prefix; "
                 "non-trivial = the step is a tool call (not an external modification). interleavings: case = (writer pair, schedule)")
     F.preload()   # pool workers are forked from this process: they inherit the imported implementation
+    C.sweep_stale()
+    if ctx.replay:
+        import random as _random
+        try:
+            ctx.seed = int(json.loads(open(ctx.replay).read()).get("seed", ctx.seed))
+            ctx.rng = _random.Random(ctx.seed)   # scenarios are a function of the seed: replay with the seed of the failing run
+        except (OSError, ValueError):
+            raise vlib.Infra(f"cannot read replay file {ctx.replay}")
     ctx.translate(PROJECT)
     proj = ctx.lean(PROJECT, PROPS)
     if vlib.fingerprints_changed(ctx.prop, ANCHORS):
